@@ -157,6 +157,8 @@ int main(int argc, char** argv) {
 			else if (op == "bemplace") r = g_db.emplace(static_cast<int>(a));
 			else if (op == "bclear") g_db.clear();
 			else if (op == "dappend") g_da += g_db;
+			else if (op == "dchain") { const int v = static_cast<int>(a); (g_da += v) += static_cast<int>(b); }		// chained through the operators' results
+			else if (op == "dchaina") { (g_da += static_cast<int>(a)) += g_db; }
 			kv("r", r); arObs();
 		} else if (c == "bs") {
 			if (op == "new") { std::memset(&g_buf, 0x5A, sizeof g_buf); g_ws = new (g_wsStore) WS{g_buf}; g_rs = new (g_rsStore) RS{g_buf}; }
